@@ -631,3 +631,272 @@ R.spec(F, "InMemoryStorage.get_best_trial", props=["C12", "C01", "C03"], guarded
 def better(eng, st, direction, a, b):
     """a is strictly better than b in `direction`."""
     return SV(KBool, z3.If(direction.term == MAXIMIZE, f_lt(b.term, a.term), f_lt(a.term, b.term)))
+
+
+# ---------------------------------------------------------------------------------------------
+# get_all_trials / delete_study / get_all_studies
+CONTAINER_T_FIELDS = ["_params", "_distributions", "_user_attrs", "_system_attrs", "intermediate_values", "_values"]
+
+
+@R.specfunc("deepcopy_list:ref:FrozenTrial")
+def deepcopy_trial_list(eng, st, v, node=None):
+    """copy.deepcopy(list[FrozenTrial]): a fresh list of fresh FrozenTrial objects (pairwise distinct, distinct from
+    everything allocated before); scalar fields equal; every container field is a fresh container with equal
+    content.  Objects allocated before the call are unchanged."""
+    n = eng.list_len(st, v)
+    old_nref = st.nref
+    out = eng.new_list(st, KList(v.kind.elem, ""), n)
+    new_nref = st.fresh("nref", z3.IntSort())
+    st.assume(new_nref >= st.nref)
+    st.nref = new_nref
+    cp = st.fresh("dc_obj", z3.ArraySort(z3.IntSort(), z3.IntSort()))
+    inv = st.fresh("dc_inv", z3.ArraySort(z3.IntSort(), z3.IntSort()))
+    i, r = z3.Int("dc_i"), z3.Int("dc_r")
+    _, e_src = eng.lnames(v.kind)
+    src = eng.harr(st, e_src)[v.term]
+    _, e_dst = eng.lnames(out.kind)
+    st.heap[e_dst] = z3.Store(eng.harr(st, e_dst), out.term, cp)
+    inr = z3.And(0 <= i, i < n)
+    st.assume(qforall([i], z3.Implies(inr, z3.And(cp[i] > old_nref, cp[i] < new_nref, inv[cp[i]] == i)), patterns=[cp[i]]), quantified=True)
+    for f in ALL_T_FIELDS:
+        name, kind = eng.fname("FrozenTrial", f)
+        a0 = eng.harr(st, name)
+        a1 = eng.havoc_harr(st, name)
+        st.assume(qforall([r], z3.Implies(z3.And(0 <= r, r <= old_nref), a1[r] == a0[r]), patterns=[a1[r]]), quantified=True)
+        if f not in CONTAINER_T_FIELDS:
+            st.assume(qforall([i], z3.Implies(inr, a1[cp[i]] == a0[src[i]]), patterns=[a1[cp[i]]]), quantified=True)
+            continue
+        # fresh container with equal content
+        cf = st.fresh("dc_" + f, z3.ArraySort(z3.IntSort(), z3.IntSort()))
+        if isinstance(kind, KDict):
+            names = eng.dnames(kind)
+        else:
+            names = eng.lnames(kind)
+        olds = [eng.harr(st, nm) for nm in names]
+        news = [eng.havoc_harr(st, nm) for nm in names]
+        for o, nw in zip(olds, news):
+            st.assume(qforall([r], z3.Implies(z3.And(0 <= r, r <= old_nref), nw[r] == o[r]), patterns=[nw[r]]), quantified=True)
+        null_ok = (a0[src[i]] == 0) if kind.nullable else z3.BoolVal(False)
+        body = z3.If(null_ok, a1[cp[i]] == 0,
+                     z3.And(a1[cp[i]] == cf[i], cf[i] > old_nref, cf[i] < new_nref,
+                            z3.And([nw[cf[i]] == o[a0[src[i]]] for o, nw in zip(olds, news)])))
+        st.assume(qforall([i], z3.Implies(inr, body), patterns=[a1[cp[i]]]), quantified=True)
+    eng.set_is_tuple(st, out, False)
+    return out
+
+
+def _match(eng, st, state_term, states):
+    """state in `states` (None = every state)."""
+    if states.kind is KNone:
+        return z3.BoolVal(True)
+    j = z3.Int("mt_j")
+    n = eng.list_len(st, states)
+    e = eng.list_get(st, states, j).term
+    return z3.Or(states.term == 0, z3.Exists([j], z3.And(0 <= j, j < n, e == state_term)))
+
+
+@R.specfunc()
+def selection_ok(eng, st, self_sv, study_id, lst, states, lo, hi, copied):
+    """`lst` holds exactly the trials of the study with number in [lo, hi) whose state is in `states`, in number
+    order: every element is (a deep copy of, if `copied`) the stored trial with its own number; numbers strictly
+    increase; no matching trial lies in a gap.  Purely universal (no witness needed)."""
+    m = _m(eng, st, self_sv)
+    s = study_id.term
+    n = eng.list_len(st, lst)
+    j, j2, k = z3.Int("so_j"), z3.Int("so_j2"), z3.Int("so_k")
+    el = lambda x: eng.list_get(st, lst, x)
+    num = lambda x: m.tfield(el(x), "_number").term
+    stored = lambda x: m.trial_at(s, x)
+    mt = lambda x: _match(eng, st, m.tfield(stored(x), "state").term, states)
+    same = lambda x: z3.If(copied.term,
+                           z3.And(el(x).term != stored(num(x)).term,
+                                  m.tfield(el(x), "state").term == m.tfield(stored(num(x)), "state").term,
+                                  m.tfield(el(x), "_trial_id").term == m.tfield(stored(num(x)), "_trial_id").term),
+                           el(x).term == stored(num(x)).term)
+    inr = z3.And(0 <= j, j < n)
+    a = qforall([j], z3.Implies(inr, z3.And(lo.term <= num(j), num(j) < hi.term, mt(num(j)), same(j))), patterns=[el(j).term])
+    b = qforall([j, j2], z3.Implies(z3.And(0 <= j, j < j2, j2 < n), num(j) < num(j2)),
+                patterns=[z3.MultiPattern(el(j).term, el(j2).term)])
+    first = z3.If(n > 0, num(z3.IntVal(0)), hi.term)
+    c1 = qforall([k], z3.Implies(z3.And(lo.term <= k, k < first), z3.Not(mt(k))), patterns=[stored(k).term])
+    c2 = qforall([j, k], z3.Implies(z3.And(0 <= j, j + 1 < n, num(j) < k, k < num(j + 1)), z3.Not(mt(k))),
+                 patterns=[z3.MultiPattern(el(j).term, stored(k).term)])
+    last = num(n - 1)
+    c3 = qforall([k], z3.Implies(z3.And(n > 0, last < k, k < hi.term), z3.Not(mt(k))), patterns=[stored(k).term])
+    return SV(KBool, z3.And(lst.term != 0, a, b, c1, c2, c3))
+
+
+@R.specfunc()
+def only_cursor_changed(eng, st, self_sv, study_id):
+    """Nothing the storage owns changed, except the WAITING cursor of `study_id`."""
+    ctx = eng.spec_stack[-1]
+    conj = []
+    for name, arr in st.heap.items():
+        a0 = ctx.pre_heap.get(name)
+        if a0 is None or z3.eq(a0, arr) or name.startswith("G:") or "keyseq" in name:
+            continue
+        if not (name.startswith("D:") and name.endswith("@pw")):
+            r = z3.Int("occ_r")
+            conj.append(qforall([r], z3.Implies(z3.And(0 <= r, r < ctx.pre_nref), arr[r] == a0[r])))
+    m = _m(eng, st, self_sv)
+    saved = st.heap
+    st.heap = dict(ctx.pre_heap)
+    try:
+        m0 = _m(eng, st, self_sv)
+        s = z3.Int("occ_s")
+        old_has = eng.dict_has(st, m0.pw, SV(KInt, s))
+        old_val = eng.dict_get(st, m0.pw, SV(KInt, s)).term
+    finally:
+        for k2, v2 in st.heap.items():
+            saved.setdefault(k2, v2)
+        st.heap = saved
+    new_has = eng.dict_has(st, m.pw, SV(KInt, s))
+    new_val = eng.dict_get(st, m.pw, SV(KInt, s)).term
+    conj.append(qforall([s], z3.And(new_has == old_has, z3.Implies(s != study_id.term, new_val == old_val)), patterns=[new_has]))
+    return SV(KBool, z3.And(conj))
+
+
+@R.specfunc()
+def cursor_loop_inv(eng, st, self_sv, study_id, acc, c0, i):
+    """Invariant of the WAITING fast path: the cursor is the number of the first WAITING trial found so far (or
+    still the entry cursor)."""
+    m = _m(eng, st, self_sv)
+    n = eng.list_len(st, acc)
+    first_num = m.tfield(eng.list_get(st, acc, z3.IntVal(0)), "_number").term
+    pw = eng.dict_get(st, m.pw, study_id).term
+    return SV(KBool, z3.And(eng.dict_has(st, m.pw, study_id), pw == z3.If(n > 0, first_num, c0.term)))
+
+
+GAT_STATES = "list[TrialState] | None"
+R.spec(F, "InMemoryStorage.get_all_trials", props=["C01", "C03", "C04", "C20"], guarded_by=GUARD,
+       types={"states": GAT_STATES},
+       locals={"trials": "list[FrozenTrial]"},
+       requires=INV,
+       cases=[
+           case("missing", when=NOT_FOUND_S, raises="KeyError", ensures=["same_storage(self)"]),
+           case("ok", ensures=[
+               "fresh(result)",        # never a list the storage owns (C20: later writes do not change it)
+               "selection_ok(self, study_id, result, states, 0, ntrials(self, study_id), deepcopy)",
+               "only_cursor_changed(self, study_id)",
+           ]),
+       ],
+       ensures_all=INV,
+       loops={0: loop(index="_i", invariant=INV + [
+           "has_study(self, study_id)", "0 <= _i",
+           "old(self._prev_waiting_trial_number[study_id]) + _i <= ntrials(self, study_id)",
+           "selection_ok(self, study_id, trials, states, old(self._prev_waiting_trial_number[study_id]), "
+           "old(self._prev_waiting_trial_number[study_id]) + _i, False)",
+           "cursor_loop_inv(self, study_id, trials, old(self._prev_waiting_trial_number[study_id]), _i)",
+           "only_cursor_changed(self, study_id)", "fresh(trials)",
+       ], modifies=OWN_PW + ["L:*:list<ref:FrozenTrial>", "G:is_tuple"])},
+       modifies=OWN_PW + ["L:*:list<ref:FrozenTrial>", "L:*:list<float>", "D:*@t*", "F:FrozenTrial.*"])
+
+
+@R.specfunc()
+def idmap_minus(eng, st, self_sv, study_id, upto):
+    """The id map is the entry map minus the trials of `study_id` with number < upto; everything else the storage
+    owns is unchanged."""
+    ctx = eng.spec_stack[-1]
+    m = _m(eng, st, self_sv)
+    saved = st.heap
+    st.heap = dict(ctx.pre_heap)
+    try:
+        m0 = _m(eng, st, self_sv)
+        t = z3.Int("imm_t")
+        has0, sid0, num0 = m0.has_trial(t), m0.sid_of(t), m0.num_of(t)
+        val0 = eng.dict_get(st, m0.idmap, SV(KInt, t)).term
+    finally:
+        for k2, v2 in st.heap.items():
+            saved.setdefault(k2, v2)
+        st.heap = saved
+    val1 = eng.dict_get(st, m.idmap, SV(KInt, t)).term
+    gone = z3.And(sid0 == study_id.term, num0 < upto.term)
+    a = qforall([t], z3.And(m.has_trial(t) == z3.And(has0, z3.Not(gone)), z3.Implies(m.has_trial(t), val1 == val0)),
+                patterns=[m.has_trial(t), has0])
+    conj = [a]
+    for name, arr in st.heap.items():
+        a0 = ctx.pre_heap.get(name)
+        if a0 is None or z3.eq(a0, arr) or name.startswith("G:") or "keyseq" in name:
+            continue
+        if name.startswith("D:") and name.endswith("dict<int,tuple<int,int>>"):
+            continue
+        r = z3.Int("imm_r")
+        conj.append(qforall([r], z3.Implies(z3.And(0 <= r, r < ctx.pre_nref), arr[r] == a0[r])))
+    return SV(KBool, z3.And(conj))
+
+
+R.spec(F, "InMemoryStorage.delete_study", props=["C01", "C03", "C20"], guarded_by=GUARD,
+       requires=INV,
+       cases=[
+           case("missing", when=NOT_FOUND_S, raises="KeyError", ensures=["same_storage(self)"]),
+           case("deleted", ensures=[
+               # the study and its trials are gone; ids are not reused (the id counters are untouched)
+               "not has_study(self, study_id)",
+               "forall(lambda s: implies(s != study_id, has_study(self, s) == old(has_study(self, s)) and "
+               "implies(has_study(self, s), study(self, s) is old(study(self, s)) and ntrials(self, s) == old(ntrials(self, s)))))",
+               "forall(lambda t: has_trial(self, t) == (old(has_trial(self, t)) and old(sid_of(self, t)) != study_id))",
+               "forall(lambda t: implies(has_trial(self, t), sid_of(self, t) == old(sid_of(self, t)) and "
+               "num_of(self, t) == old(num_of(self, t)) and tr(self, t) is old(tr(self, t))))",
+               "self._max_trial_id == old(self._max_trial_id) and self._max_study_id == old(self._max_study_id)",
+           ]),
+       ],
+       ensures_all=INV,
+       loops={0: loop(index="_i", invariant=["has_study(self, study_id)", "0 <= _i", "_i <= old(ntrials(self, study_id))",
+                                             "idmap_minus(self, study_id, _i)"],
+                      modifies=OWN_IDMAP)},
+       modifies=OWN_IDMAP + OWN_NAMES + OWN_STUDIES + OWN_PW)
+
+
+# --- set_trial_param / get_trial_param -----------------------------------------------------------
+D_ = "optuna/distributions.py"
+import optuna.distributions as _od  # noqa: E402
+R.classes.update({"BaseDistribution": _od.BaseDistribution})
+R.spec(D_, "check_distribution_compatibility", trusted=True,
+       cases=[case("incompatible", when="not dist_compatible(dist_old, dist_new)", raises="ValueError"), case("ok")],
+       note="assumed here: raises ValueError exactly for incompatible distributions (an uninterpreted relation)")
+R.spec(D_, "BaseDistribution.to_external_repr", trusted=True, returns_kind="Any",
+       cases=[case("ok", returns="external_repr(self, param_value_in_internal_repr)")],
+       note="dynamic dispatch over the distribution classes: an uninterpreted function of (distribution, internal value)")
+R.spec(D_, "BaseDistribution.to_internal_repr", trusted=True, returns_kind="float", types={"param_value_in_external_repr": "Any"},
+       cases=[case("bad", when="nondet()", raises="ValueError"), case("ok", returns="internal_repr(self, param_value_in_external_repr)")])
+
+
+@R.specfunc()
+def dist_compatible(eng, st, a, b):
+    return SV(KBool, uf("dist_compatible", z3.IntSort(), z3.IntSort(), z3.BoolSort())(a.term, b.term))
+
+
+@R.specfunc()
+def external_repr(eng, st, d, x):
+    return SV(KVal, uf("external_repr", z3.IntSort(), flt_sort(), val_sort())(d.term, eng.coerce(st, x, KFloat).term))
+
+
+@R.specfunc()
+def internal_repr(eng, st, d, x):
+    return SV(KFloat, uf("internal_repr", z3.IntSort(), val_sort(), flt_sort())(d.term, eng.coerce(st, x, KVal).term))
+
+
+R.spec(F, "InMemoryStorage.set_trial_param", props=["C01", "C03", "C10", "C20"], guarded_by=GUARD,
+       types={"distribution": "BaseDistribution"},
+       requires=INV,
+       cases=[
+           case("missing", when=NOT_FOUND_T, raises="KeyError", ensures=["same_storage(self)"]),
+           case("finished", when=FINISHED_T, raises="UpdateFinishedTrialError", ensures=["same_storage(self)"]),
+           # the documented contract is silent about WHICH earlier distributions are compared (DESIGN 4):
+           # may raise ValueError only for an incompatible earlier distribution of the same name; nothing changes
+           case("incompatible", when="param_name in study(self, sid_of(self, trial_id)).param_distribution and "
+                "not dist_compatible(study(self, sid_of(self, trial_id)).param_distribution[param_name], distribution)",
+                raises="ValueError", ensures=["same_storage(self)"]),
+           case("ok", ensures=[
+               "other_trials_same(self, trial_id)",
+               "same_except(tr(self, trial_id), old(tr(self, trial_id)), '_params', '_distributions')",
+               "param_name in tr(self, trial_id)._params and param_name in tr(self, trial_id)._distributions",
+               # what is stored is the external representation of the internal value, and the distribution itself
+               "tr(self, trial_id)._params[param_name] is external_repr(distribution, param_value_internal)",
+               "tr(self, trial_id)._distributions[param_name] is distribution",
+               "dict_same_except(tr(self, trial_id)._params, old(tr(self, trial_id)._params), param_name)",
+               "dict_same_except(tr(self, trial_id)._distributions, old(tr(self, trial_id)._distributions), param_name)",
+           ]),
+       ],
+       ensures_all=INV,
+       modifies=OWN_TRIALS + ["D:*@spd"])
